@@ -550,6 +550,41 @@ func (c *pieceCtx) r5(rule string) {
 				r.Fail(rule, key, u.In.Pos(), "alloc.Free is not dominated by data != nil (double free)")
 				continue
 			}
+			// ... tested in the same lock hold: every path from a lock release to the free re-tests data != nil
+			// (a test made before the lock was dropped says nothing: Finalise may have freed the piece meanwhile)
+			{
+				free := u.In
+				isNilEdge := edgeReq{Name: "data != nil after re-locking", Match: func(cond ssa.Value, pol bool) bool {
+					bo, ok := cond.(*ssa.BinOp)
+					if !ok || !(isNilConst(bo.Y) || isNilConst(bo.X)) {
+						return false
+					}
+					x := bo.X
+					if isNilConst(x) {
+						x = bo.Y
+					}
+					fv, _ := loadedField(x)
+					return fv == c.data && ((bo.Op == token.NEQ && pol) || (bo.Op == token.EQL && !pol))
+				}}
+				stale := false
+				allInstrs(f, func(in ssa.Instruction) {
+					if !c.isUnlock(in) {
+						return
+					}
+					if _, isDefer := in.(*ssa.Defer); isDefer {
+						return
+					}
+					miss, reached := pathsMissing(in, -1, func(i ssa.Instruction) bool { return i == free }, nil, []edgeReq{isNilEdge})
+					if reached > 0 && len(miss) > 0 {
+						stale = true
+					}
+				})
+				if stale {
+					r.Fail(rule, key+"/nil-test-same-hold", u.In.Pos(), "the lock is released and re-acquired between the data != nil test and alloc.Free: if the piece was freed meanwhile (Finalise on a hash mismatch) it is freed and un-counted a second time")
+					continue
+				}
+				r.Ok(rule, key+"/nil-test-same-hold", u.In.Pos(), "every path from a lock release to alloc.Free re-tests data != nil")
+			}
 			// cleared before unlock/return
 			exits := exitsAvoiding(u.In, func(i ssa.Instruction) bool {
 				if st, ok := i.(*ssa.Store); ok {
